@@ -23,6 +23,8 @@ AP_K2_FLAT = {"k": 2, "maxtok": 1, "tokmask": 1, "shapemask": 34, "nvals": 2, "k
 AP_K2_INNER = {"k": 2, "maxtok": 2, "mintok0": 2, "maxtok1": 1, "tokmask": 1, "shapemask": 2328, "nvals": 2, "kmask0": 7, "kmask1": 56}
 # op0 copies/moves a container (one token), op1 edits strictly inside the source or the duplicate (aliasing)
 AP_K2_COPYEDIT = {"k": 2, "maxtok": 2, "maxtok0": 1, "mintok1": 2, "tokmask": 1, "shapemask": 2328, "nvals": 2, "kmask0": 24, "kmask1": 7}
+# tokens made of ~0/~1 escapes (optionally followed by 0/1) on a document whose member names are ~1, /, ~0, ~, /0: decoding order
+AP_ESC = {"k": 1, "maxtok": 2, "tokmask": 64, "shapemask": 262144, "nvals": 2, "kmask0": 63}
 AP_K1_T3 = {"k": 1, "maxtok": 3, "tokmask": 15, "shapemask": ALLSHAPES, "nvals": 8, "kmask0": 63}
 AP_K2_DEEP = {"k": 2, "maxtok": 2, "tokmask": 1, "shapemask": 315, "nvals": 2, "kmask0": 63, "kmask1": 63}
 AP_K2_INNER_ALL = {"k": 2, "maxtok": 2, "mintok0": 2, "tokmask": 1, "shapemask": 2328, "nvals": 4, "kmask0": 63, "kmask1": 63}
@@ -31,8 +33,8 @@ AP_BOUND = ("13 document shapes (<= 6 nodes, depth <= 3, object and array roots,
             "K operations (kmask selects the kinds per position), pointers of mintok..maxtok tokens; each token 1-3 symbolic bytes "
             "(any printable ASCII except quote, backslash, slash, tilde) or the fixed spellings a~0b / c~1d; 8 value shapes with symbolic leaves; SupportNegativeIndices symbolic")
 def apply_harnesses(extra_quick=(), extra_thorough=()):
-    q = [AP_K1, AP_K2_FLAT, AP_K2_INNER, AP_K2_COPYEDIT] + list(extra_quick)
-    t = [AP_K1_T3, AP_K2_DEEP, AP_K2_INNER_ALL, AP_K3] + list(extra_thorough)
+    q = [AP_K1, AP_K2_FLAT, AP_K2_INNER, AP_K2_COPYEDIT, AP_ESC] + list(extra_quick)
+    t = [AP_K1_T3, AP_K2_DEEP, AP_K2_INNER_ALL, AP_K3, AP_K2_COPYEDIT, AP_ESC] + list(extra_thorough)
     return [
         H("H_Apply", q, t, ["apply/end", "apply/ref-fails", "apply/ref-succeeds"], AP_BOUND),
         H("H_Apply_Idx", [{"tokbytes": 2, "nshapes": 6}], [{"tokbytes": 2, "nshapes": 6}, {"tokbytes": 3, "nshapes": 6}],
@@ -54,11 +56,11 @@ L_K2_INNER = {"k": 2, "maxtok": 2, "mintok0": 2, "maxtok1": 1, "tokmask": 1, "sh
 L_K2_COPYEDIT = {"k": 2, "maxtok": 2, "maxtok0": 1, "mintok1": 2, "tokmask": 1, "shapemask": 2328, "nvals": 2, "kmask0": 16, "kmask1": 7}
 L_LIMIT = {"k": 2, "kmask0": 16, "kmask1": 16, "maxtok": 1, "tokmask": 1, "shapemask": 40960, "nvals": 2, "limit": 1}
 L_LIMIT1 = {"k": 1, "kmask0": 16, "maxtok": 2, "tokmask": 1, "shapemask": 57344, "nvals": 2, "limit": 1}
-MERGE_Q = [{"docm": 2, "docvals": 6, "patchm": 2, "patchvals": 10}]
+MERGE_Q = [{"docm": 2, "docvals": 6, "patchm": 2, "patchvals": 12}, {"docm": 1, "docvals": 2, "patchm": 3, "patchvals": 2}, {"docm": 2, "docvals": 2, "patchm": 2, "patchvals": 6, "emptynames": 1}]
 MERGE_BOUND = ("documents: objects of <= docm members a,b with values from W (number, string, {k:n}, {k:{j:n}}, [n], null) plus array/number/string roots; "
                "patches: objects of <= patchm members named by one symbolic letter a..d with values from V (null, number, string, {}, {k:null}, {k:n}, {k:{j:null}}, [], [null], [{k:null}]) "
-               "or one of 7 non-object patches; leaves symbolic")
-MM_Q = [{"docm": 1, "docvals": 4, "patchm": 1, "patchvals": 10, "nonobjdocs": 1}, {"docm": 1, "docvals": 3, "patchm": 2, "patchvals": 6, "nonobjdocs": 0}]
+               "(+ {k:null,j:null,i:n}, {k:null,j:{i:null,h:n},g:n}) or one of 7 non-object patches; leaves symbolic; with emptynames=1 member names may also be the empty string")
+MM_Q = [{"docm": 1, "docvals": 4, "patchm": 1, "patchvals": 12, "nonobjdocs": 1}, {"docm": 1, "docvals": 3, "patchm": 2, "patchvals": 6, "nonobjdocs": 0}, {"docm": 2, "docvals": 2, "patchm": 1, "patchvals": 6, "nonobjdocs": 0, "emptynames": 1}]
 MM_BOUND = ("triples (D,P1,P2): D object of <= docm members (values from W) or array/number/string root; P1 object patch, P2 object patch or one of 7 non-object patches, "
             "<= patchm members each with one-letter symbolic names a..d and values from the first patchvals entries of V; incompatible pairs skipped as outside the property")
 CREATE_BOUND = ("A, B objects of <= m members, one-letter symbolic names a..d, values chosen by the mask 'vals' from 16 shapes: number, string, {k:n}, {k:n,j:n}, [n], {}, true, null, "
@@ -140,9 +142,10 @@ HTML_SHAPES = 57344  # shapes 13,14,15: strings over printable ASCII incl. < > &
 C12_K1 = {"k": 1, "kmask0": 16, "maxtok": 2, "tokmask": 1, "shapemask": HTML_SHAPES, "nvals": 2, "optmask": 12}
 C12_K2 = {"k": 2, "kmask0": 16, "kmask1": 16, "maxtok": 1, "tokmask": 1, "shapemask": 40960, "nvals": 2, "optmask": 12}
 C12_K2_MIX = {"k": 2, "kmask0": 63, "kmask1": 16, "maxtok": 1, "tokmask": 1, "shapemask": 8192, "nvals": 2, "optmask": 12}
+C12_PKG = {"k": 1, "kmask0": 16, "maxtok": 1, "tokmask": 1, "shapemask": 40960, "nvals": 2, "optmask": 20}
 C12_K3 = {"k": 3, "kmask0": 16, "kmask1": 16, "kmask2": 16, "maxtok": 1, "tokmask": 32, "shapemask": HTML_SHAPES, "nvals": 2, "optmask": 12}
 C12_K2_ALL = {"k": 2, "kmask0": 16, "kmask1": 16, "maxtok": 2, "tokmask": 1, "shapemask": HTML_SHAPES, "nvals": 2, "optmask": 12}
-R["C12"] = {"harnesses": [H("H_Apply", [C12_K1, C12_K2], [C12_K1, C12_K2_ALL, C12_K2_MIX, C12_K3], ["apply/copy-limit-hit", "apply/end"],
+R["C12"] = {"harnesses": [H("H_Apply", [C12_K1, C12_K2, C12_PKG], [C12_K1, C12_K2_ALL, C12_K2_MIX, C12_K3, C12_PKG], ["apply/copy-limit-hit", "apply/end"],
     "documents with strings of 1-2 symbolic bytes over printable ASCII (so <, >, & make the escaped length vary per path); K copy operations (optionally one other operation first) with pointers of <= maxtok one-byte symbolic tokens; "
     "AccumulatedCopySizeLimit = any int64 (one symbolic variable: 0, negative, total-1, total, total+1, MaxInt64 all decided in the same query); EscapeHTML on/off; SupportNegativeIndices symbolic")],
     "anchors": ["(github.com/evanphx/json-patch/v5.Patch).copy", "v5.deepCopy", "v5.NewApplyOptions"],
